@@ -42,11 +42,15 @@ func c09Plan(c c09Cell, followup string, lat []time.Duration, h time.Duration, o
 	var startS time.Duration = 1
 	switch c.Role {
 	case "leader":
-	case "follower", "candidate":
+	case "follower", "candidate", "successor":
 		// another instance leads already
 		startS = odd(2 * h)
 	}
-	if c.Phase == "timer" {
+	if c.Phase == "log" {
+		// the stop is issued from inside the library's own log call c.Op (n-th occurrence), i.e. between the
+		// two steps of the library around that line
+		p.LogRules = []LogRule{{Inst: 0, Msg: c.Op, N: c.Nth, Action: stop}}
+	} else if c.Phase == "timer" {
 		// at / 1ns before / 1ns after a heartbeat (leader) or periodic-check (follower) timer
 		base := startS + time.Duration(c.Nth+1)*h
 		if c.Role != "leader" {
@@ -71,6 +75,11 @@ func c09Plan(c c09Cell, followup string, lat []time.Duration, h time.Duration, o
 			at = odd(h/2 + time.Duration(i))
 		}
 		p.Timeline = append(p.Timeline, Action{At: at, Kind: ActStart, Inst: i + 1})
+	}
+	if c.Role == "successor" {
+		// ... and hands the key over later: S acquires it through a watch event or the periodic check, on a
+		// goroutine that no Start is waiting for
+		p.Timeline = append(p.Timeline, Action{At: odd(4 * h), Kind: ActStopCtx, Inst: 1, DeleteKey: true})
 	}
 	if c.Role != "leader" && others == 0 {
 		p.Instances = append(p.Instances, Inst{ID: "o0", Group: "g", Lat: []time.Duration{1, 3}})
@@ -120,13 +129,31 @@ func c09Grid() []c09Cell {
 			}
 		}
 	}
+	// stops at the library's log lines
+	logs := map[string][]string{
+		"candidate": {"election_started", "acquire_success", "acquire_failed", "state_transition", "leader_promoted"},
+		"follower":  {"election_started", "acquire_failed", "state_transition", "watch_started", "leader_changed", "watch_event_key_deleted", "attempting_acquire_with_retry", "acquire_retry", "acquire_success", "leader_promoted"},
+		"leader":    {"acquire_success", "state_transition", "leader_promoted", "heartbeat_failed", "token_validation_failed", "demoting_due_to_heartbeat_failure", "leader_demoted"},
+	}
+	logs["successor"] = []string{"watch_event_key_empty", "attempting_acquire_with_retry", "acquire_success", "state_transition", "leader_promoted", "key_not_found_triggering_reelection"}
+	for _, role := range []string{"candidate", "follower", "leader", "successor"} {
+		for _, msg := range logs[role] {
+			for nth := 0; nth < 2; nth++ {
+				for vi := range c09Variants {
+					for _, dd := range []time.Duration{0, 2 * time.Second} {
+						out = append(out, c09Cell{role, msg, nth, "log", vi, dd, "ok"})
+					}
+				}
+			}
+		}
+	}
 	return out
 }
 
 func TestC09(t *testing.T) {
 	grid := c09Grid()
 	RunCheck(t, CheckSpec{Prop: "C09",
-		Rule:        fmt.Sprintf("stop-point grid: role {candidate in its first Create, follower, leader} x operation {Create, heartbeat Update, validation/periodic Get, Watch set-up} x n-th such operation (0..2) x phase {just issued, applied-not-answered, about to return, timer boundary (1ns before / at / 1ns after a heartbeat or periodic-check timer)} x %d stop variants (Stop; StopWithContext x DeleteKey x WaitForDemote x Timeout {0, 50ms, 6s} x ctx {background, deadline, cancelled mid-call}) x OnDemote duration {0, 50ms, 2s} x outcome {answered, request time-out} = %d cells, each combined with a follow-up {none, stop again, StopWithContext then Stop, concurrent double stop, stop-then-Start, stop-then-new-object}; thorough enumerates every cell (sharded) and adds generated latencies/companions; quick runs a seeded sample with generated latencies. Oracle after each stop call that returned nil: no claim-up edge, IsLeader()==false at every later snapshot, no OnPromote, no store operation issued (until a later Start), bounded duration of the call, with DeleteKey by the owner no own version live at return; process-level: no panic, no deadlock, no library goroutine left after teardown. Non-trivial = a stop that began while a store operation of that object was in flight; distinct by plan hash.", len(c09Variants), len(grid)),
+		Rule:        fmt.Sprintf("stop-point grid: role {candidate in its first Create, follower, leader, successor = follower that acquires the key after the leader's graceful shutdown (log-line stops only)} x operation {Create, heartbeat Update, validation/periodic Get, Watch set-up} x n-th such operation (0..2) x phase {just issued, applied-not-answered, about to return, timer boundary (1ns before / at / 1ns after a heartbeat or periodic-check timer), inside one of the library's own log calls (22 messages: the stop runs between the two steps around that line)} x %d stop variants (Stop; StopWithContext x DeleteKey x WaitForDemote x Timeout {0, 50ms, 6s} x ctx {background, deadline, cancelled mid-call}) x OnDemote duration {0, 50ms, 2s} x outcome {answered, request time-out} = %d cells, each combined with a follow-up {none, stop again, StopWithContext then Stop, concurrent double stop, stop-then-Start, stop-then-new-object}; thorough enumerates every cell (sharded) and adds generated latencies/companions; quick runs a seeded sample with generated latencies. Oracle after each stop call that returned nil: no claim-up edge, IsLeader()==false at every later snapshot, no OnPromote, no store operation issued (until a later Start), bounded duration of the call, with DeleteKey by the owner no own version live at return; process-level: no panic, no deadlock, no library goroutine left after teardown. Non-trivial = a stop that began while a store operation of that object was in flight; distinct by plan hash.", len(c09Variants), len(grid)),
 		Assumptions: []string{"Start is never issued while a stop call on the same object has not returned (it is issued on objects whose stop call returned an error or gave up waiting: the WaitGroup reuse this used to trigger was repaired); StopWithContext is allowed 2 x effective time-out + one store round trip (wait for goroutines, Delete, wait for OnDemote)"},
 		Fixed: func() []*Plan {
 			var ps []*Plan
@@ -143,6 +170,16 @@ func TestC09(t *testing.T) {
 		},
 		Gen: func(t *rapid.T) *Plan {
 			c := grid[rapid.IntRange(0, len(grid)-1).Draw(t, "cell")]
+			if rapid.IntRange(0, 3).Draw(t, "log_cell") == 0 {
+				// the log-line cells are a small part of the grid: a quarter of the sample comes from them
+				var ls []c09Cell
+				for _, x := range grid {
+					if x.Phase == "log" {
+						ls = append(ls, x)
+					}
+				}
+				c = ls[rapid.IntRange(0, len(ls)-1).Draw(t, "log_cell_i")]
+			}
 			h := rapid.SampledFrom([]time.Duration{100 * time.Millisecond, 300 * time.Millisecond, time.Second}).Draw(t, "H")
 			lat := genLatList(t, h/4, "lat")
 			fu := rapid.SampledFrom(c09Followups).Draw(t, "followup")
